@@ -262,31 +262,33 @@ def _factor_sign(node):
 # ------------------------------------------------------------------ WRAP-RANGE
 class Iv:
     """interval with open/closed ends and the accumulated shift."""
-    def __init__(self, lo, lc, hi, hc, shift=0):
-        self.lo, self.lc, self.hi, self.hc, self.shift = lo, lc, hi, hc, shift
+    def __init__(self, lo, lc, hi, hc, shift=0, sg=1):
+        # value = sg * input + shift (modulo the reduction)
+        self.lo, self.lc, self.hi, self.hc, self.shift, self.sg = lo, lc, hi, hc, shift, sg
 
     def empty(self):
         return self.lo > self.hi or (self.lo == self.hi and not (self.lc and self.hc))
 
     def __repr__(self):
-        return '%s%s, %s%s%+d' % ('[' if self.lc else '(', self.lo, self.hi,
-                                  ']' if self.hc else ')', self.shift)
+        return '%s%s, %s%s%+d%s' % ('[' if self.lc else '(', self.lo, self.hi,
+                                    ']' if self.hc else ')', self.shift,
+                                    '' if self.sg == 1 else ' (negated)')
 
 
 def _split(iv, op, c):
     """(part satisfying x op c, rest)."""
     if op == '<':
-        a = Iv(iv.lo, iv.lc, min(iv.hi, c), iv.hc if iv.hi < c else False, iv.shift)
-        b = Iv(max(iv.lo, c), iv.lc if iv.lo > c else True, iv.hi, iv.hc, iv.shift)
+        a = Iv(iv.lo, iv.lc, min(iv.hi, c), iv.hc if iv.hi < c else False, iv.shift, iv.sg)
+        b = Iv(max(iv.lo, c), iv.lc if iv.lo > c else True, iv.hi, iv.hc, iv.shift, iv.sg)
     elif op == '<=':
-        a = Iv(iv.lo, iv.lc, min(iv.hi, c), iv.hc if iv.hi < c else True, iv.shift)
-        b = Iv(max(iv.lo, c), iv.lc if iv.lo > c else False, iv.hi, iv.hc, iv.shift)
+        a = Iv(iv.lo, iv.lc, min(iv.hi, c), iv.hc if iv.hi < c else True, iv.shift, iv.sg)
+        b = Iv(max(iv.lo, c), iv.lc if iv.lo > c else False, iv.hi, iv.hc, iv.shift, iv.sg)
     elif op == '>':
-        b = Iv(iv.lo, iv.lc, min(iv.hi, c), iv.hc if iv.hi < c else True, iv.shift)
-        a = Iv(max(iv.lo, c), iv.lc if iv.lo > c else False, iv.hi, iv.hc, iv.shift)
+        b = Iv(iv.lo, iv.lc, min(iv.hi, c), iv.hc if iv.hi < c else True, iv.shift, iv.sg)
+        a = Iv(max(iv.lo, c), iv.lc if iv.lo > c else False, iv.hi, iv.hc, iv.shift, iv.sg)
     elif op == '>=':
-        b = Iv(iv.lo, iv.lc, min(iv.hi, c), iv.hc if iv.hi < c else False, iv.shift)
-        a = Iv(max(iv.lo, c), iv.lc if iv.lo > c else True, iv.hi, iv.hc, iv.shift)
+        b = Iv(iv.lo, iv.lc, min(iv.hi, c), iv.hc if iv.hi < c else False, iv.shift, iv.sg)
+        a = Iv(max(iv.lo, c), iv.lc if iv.lo > c else True, iv.hi, iv.hc, iv.shift, iv.sg)
     else:
         raise AnalysisError('comparison %s' % op)
     return ([a] if not a.empty() else []), ([b] if not b.empty() else [])
@@ -295,140 +297,237 @@ def _split(iv, op, c):
 OPS = {ast.Lt: '<', ast.LtE: '<=', ast.Gt: '>', ast.GtE: '>='}
 
 
-def wrap_rules(ctx):
-    ctx.rule('WRAP-RANGE', 'to_180_range maps every real angle into (-180, 180] (array and '
-             'scalar arms)')
-    ctx.rule('WRAP-CONG', 'every adjustment in to_180_range is a multiple of the modulus 360')
-    f = ctx.repo.function('util.to_180_range')
-    fold = lambda n: ctx.repo.fold(n, f.module)
-    # find `result = angle % M`
-    var = None
-    M = None
-    start = None
-    for i, st in enumerate(f.node.body):
-        if isinstance(st, ast.Assign) and isinstance(st.value, ast.BinOp) and \
-                isinstance(st.value.op, ast.Mod) and isinstance(st.targets[0], ast.Name):
-            try:
-                M = fold(st.value.right)
-            except ValueError:
-                M = None
-            var = st.targets[0].id
-            start = i
-        elif isinstance(st, ast.Assign) and isinstance(st.value, ast.Call) and \
-                f.module.resolve(st.value.func, f.local_names()) in ('numpy.mod',
-                                                                     'numpy.remainder') \
-                and isinstance(st.targets[0], ast.Name) and len(st.value.args) == 2:
-            try:
-                M = fold(st.value.args[1])
-            except ValueError:
-                M = None
-            var = st.targets[0].id
-            start = i
-    ctx.need(var is not None, 'to_180_range: modulo reduction not found')
-    ctx.ob('WRAP-CONG', M == 360, None, 'reduction modulo 360', f=f, node=f.node.body[start],
-           key='modulus', why='angle is reduced modulo %r, not 360: the result is not congruent '
-                              'to the input' % (M,))
-    if not isinstance(M, (int, float)) or M <= 0:
-        return
-    init = [Iv(0, True, M, False, 0)]
+INF = float('inf')
 
-    def masked(st):
-        """X[X cmp c] op= k  ->  (op, c, k)"""
-        if isinstance(st, ast.AugAssign) and isinstance(st.target, ast.Subscript) and \
-                norm_text(st.target.value) == var and isinstance(st.target.slice, ast.Compare) \
-                and norm_text(st.target.slice.left) == var and len(st.target.slice.ops) == 1 \
-                and type(st.target.slice.ops[0]) in OPS and \
-                isinstance(st.op, (ast.Add, ast.Sub)):
-            c = fold(st.target.slice.comparators[0])
-            k = fold(st.value)
-            return OPS[type(st.target.slice.ops[0])], c, (k if isinstance(st.op, ast.Add) else -k)
+
+class _Wrap:
+    """Abstract interpreter for angle-reduction code: a value is a list of intervals (open /
+    closed ends) each carrying the constant accumulated relative to the input (`shift`);
+    x % M maps anything onto [0, M) and keeps the congruence class; comparisons with constants
+    split intervals; tests that do not inspect the value fork the analysis into paths."""
+
+    def __init__(self, ctx, f):
+        self.ctx, self.f = ctx, f
+        self.mods = []          # (modulus, node)
+        self.paths = []         # (description, result pieces, node)
+        self.res = lambda n: f.module.resolve(n, f.local_names())
+
+    def fold(self, n):
+        return self.ctx.repo.fold(n, self.f.module)
+
+    def const(self, n):
+        try:
+            v = self.fold(n)
+        except ValueError:
+            return None
+        return v if isinstance(v, (int, float)) and not isinstance(v, bool) else None
+
+    # ---- expressions -> list of Iv, or None when the expression is not an angle value
+    def ev(self, e, env):
+        if isinstance(e, ast.Name):
+            return env.get(e.id)
+        if isinstance(e, ast.BinOp):
+            if isinstance(e.op, ast.Mod):
+                a, M = self.ev(e.left, env), self.const(e.right)
+                return self.mod(a, M, e)
+            if isinstance(e.op, (ast.Add, ast.Sub)):
+                a, b = self.ev(e.left, env), self.ev(e.right, env)
+                ca, cb = self.const(e.left), self.const(e.right)
+                if b is not None and ca is not None and isinstance(e.op, ast.Sub):
+                    return [Iv(ca - x.hi, x.hc, ca - x.lo, x.lc, ca - x.shift, -x.sg) for x in b]
+                if a is not None and cb is not None:
+                    k = cb if isinstance(e.op, ast.Add) else -cb
+                    return [Iv(x.lo + k, x.lc, x.hi + k, x.hc, x.shift + k, x.sg) for x in a]
+                if b is not None and ca is not None and isinstance(e.op, ast.Add):
+                    return [Iv(x.lo + ca, x.lc, x.hi + ca, x.hc, x.shift + ca, x.sg) for x in b]
+                if a is not None or b is not None:
+                    raise AnalysisError('angle arithmetic `%s` not understood' % norm_text(e))
+            return None
+        if isinstance(e, ast.UnaryOp) and isinstance(e.op, (ast.USub, ast.UAdd)):
+            a = self.ev(e.operand, env)
+            if a is None or isinstance(e.op, ast.UAdd):
+                return a
+            return [Iv(-x.hi, x.hc, -x.lo, x.lc, -x.shift, -x.sg) for x in a]
+        if isinstance(e, ast.Call):
+            q = self.res(e.func) or ''
+            if q in ('numpy.negative',) and e.args:
+                a = self.ev(e.args[0], env)
+                return None if a is None else [Iv(-x.hi, x.hc, -x.lo, x.lc, -x.shift, -x.sg)
+                                               for x in a]
+            if q in ('numpy.mod', 'numpy.remainder') and len(e.args) == 2:
+                return self.mod(self.ev(e.args[0], env), self.const(e.args[1]), e)
+            if q in ('numpy.asarray', 'numpy.array', 'numpy.atleast_1d', 'numpy.asanyarray',
+                     'numpy.copy') and e.args:
+                return self.ev(e.args[0], env)
+            if isinstance(e.func, ast.Attribute) and e.func.attr in ('copy', 'astype') and \
+                    not q.startswith('numpy'):
+                return self.ev(e.func.value, env)
+            if q == 'numpy.where' and len(e.args) == 3:
+                sp = self.split(e.args[0], env)
+                if sp is None:
+                    raise AnalysisError('np.where condition `%s` not understood'
+                                        % norm_text(e.args[0]))
+                name, sat, uns = sp
+                a = self.ev(e.args[1], dict(env, **{name: sat})) if sat else []
+                b = self.ev(e.args[2], dict(env, **{name: uns})) if uns else []
+                if a is None or b is None:
+                    raise AnalysisError('np.where arms not understood')
+                return a + b
         return None
 
-    def scalar_chain(st):
-        """if X cmp c: X op= k  elif ... -> list of (op, c, k)"""
-        out = []
-        while isinstance(st, ast.If):
-            t = st.test
-            if not (isinstance(t, ast.Compare) and norm_text(t.left) == var and
-                    len(t.ops) == 1 and type(t.ops[0]) in OPS and len(st.body) == 1 and
-                    isinstance(st.body[0], ast.AugAssign) and
-                    norm_text(st.body[0].target) == var and
-                    isinstance(st.body[0].op, (ast.Add, ast.Sub))):
-                return None
-            k = fold(st.body[0].value)
-            out.append((OPS[type(t.ops[0])], fold(t.comparators[0]),
-                        k if isinstance(st.body[0].op, ast.Add) else -k))
-            if len(st.orelse) == 1 and isinstance(st.orelse[0], ast.If):
-                st = st.orelse[0]
-            elif not st.orelse:
-                break
-            else:
-                return None
-        return out or None
+    def mod(self, a, M, node):
+        if a is None:
+            return None
+        self.mods.append((M, node))
+        if not isinstance(M, (int, float)) or M <= 0:
+            raise AnalysisError('modulus of `%s` is not a positive constant' % norm_text(node))
+        out, seen = [], set()
+        for x in a:
+            if x.hi - x.lo < M:
+                raise AnalysisError('modulo of a bounded interval')
+            if (x.shift, x.sg) not in seen:
+                seen.add((x.shift, x.sg))
+                out.append(Iv(0, True, M, False, x.shift, x.sg))
+        return out
 
-    arms = []      # (name, list of interval sets after the arm, node)
+    def split(self, test, env):
+        """value test `X cmp c` -> (X, pieces satisfying, pieces not satisfying)"""
+        if isinstance(test, ast.Compare) and len(test.ops) == 1 and type(test.ops[0]) in OPS and \
+                isinstance(test.left, ast.Name) and env.get(test.left.id) is not None:
+            c = self.const(test.comparators[0])
+            if c is None:
+                return None
+            sat, uns = [], []
+            for iv in env[test.left.id]:
+                a, b = _split(iv, OPS[type(test.ops[0])], c)
+                sat += a
+                uns += b
+            return test.left.id, sat, uns
+        return None
 
-    def analyse_block(body, name, node):
-        cur = [Iv(i.lo, i.lc, i.hi, i.hc, i.shift) for i in init]
-        understood = True
+    # ---- statements; returns list of (env, description) continuing paths
+    def run(self, body, env, desc):
+        states = [(env, desc)]
         for st in body:
-            m = masked(st)
-            if m is not None:
-                op, c, k = m
-                nxt = []
-                for iv in cur:
-                    a, b = _split(iv, op, c)
-                    nxt += [Iv(x.lo + k, x.lc, x.hi + k, x.hc, x.shift + k) for x in a] + b
-                cur = nxt
-                continue
-            ch = scalar_chain(st)
-            if ch is not None:
-                nxt = []
-                rest = cur
-                for op, c, k in ch:
-                    r2 = []
-                    for iv in rest:
-                        a, b = _split(iv, op, c)
-                        nxt += [Iv(x.lo + k, x.lc, x.hi + k, x.hc, x.shift + k) for x in a]
-                        r2 += b
-                    rest = r2
-                cur = nxt + rest
-                continue
-            understood = False
-        arms.append((name, cur, node, understood))
-    # the function body after the reduction: an if/elif structure selecting array vs scalar
-    tail = f.node.body[start + 1:]
-    for st in tail:
-        if isinstance(st, ast.If) and masked(st.body[0]) is not None if (
-                isinstance(st, ast.If) and st.body) else False:
-            analyse_block(st.body, 'array arm', st)
-            if st.orelse:
-                analyse_block(st.orelse, 'scalar arm', st.orelse[0])
-        elif masked(st) is not None or scalar_chain(st) is not None:
-            analyse_block([st], 'arm', st)
-    # np.where formulation: result = np.where(result > 180, result - 360, result)
-    if not arms:
-        raise AnalysisError('to_180_range: adjustment arms not recognised')
-    for name, cur, node, understood in arms:
-        ctx.need(understood, 'to_180_range: statement in the %s not understood' % name)
-        ok = all((iv.lo > -180 or (iv.lo == -180 and not iv.lc)) and iv.hi <= 180 and
-                 not (iv.hi == 180 and False) for iv in cur) and \
-            all(iv.lo >= -180 for iv in cur)
-        ctx.ob('WRAP-RANGE', ok, None, '%s: result set %s is inside (-180, 180]' % (name, cur),
-               f=f, node=node, key='range-' + name,
-               why='%s of to_180_range can return values outside (-180, 180]: reachable set %s'
-                   % (name, cur))
-        okc = all(iv.shift % M == 0 for iv in cur)
-        ctx.ob('WRAP-CONG', okc, None, '%s: adjustments are multiples of %s' % (name, M), f=f,
-               node=node, key='cong-' + name,
-               why='%s of to_180_range shifts by %s, not a multiple of %s'
-                   % (name, sorted({iv.shift for iv in cur}), M))
-        # coverage: every residue is still represented exactly once (no value dropped)
-        tot = sum(iv.hi - iv.lo for iv in cur)
+            nxt = []
+            for env, desc in states:
+                nxt += self.step(st, env, desc)
+            states = nxt
+        return states
+
+    def step(self, st, env, desc):
+        if isinstance(st, ast.Expr) and isinstance(st.value, ast.Constant):
+            return [(env, desc)]
+        if isinstance(st, ast.Return):
+            v = self.ev(st.value, env) if st.value is not None else None
+            if v is None:
+                raise AnalysisError('to_180_range returns `%s`, not an angle value'
+                                    % norm_text(st.value))
+            self.paths.append((desc or 'only path', v, st))
+            return []
+        if isinstance(st, ast.Assign) and len(st.targets) == 1 and \
+                isinstance(st.targets[0], ast.Name):
+            v = self.ev(st.value, env)
+            env = dict(env)
+            env[st.targets[0].id] = v
+            return [(env, desc)]
+        if isinstance(st, ast.AugAssign) and isinstance(st.op, (ast.Add, ast.Sub)):
+            k = self.const(st.value)
+            if isinstance(st.target, ast.Name) and env.get(st.target.id) is not None and \
+                    k is not None:
+                k = k if isinstance(st.op, ast.Add) else -k
+                env = dict(env)
+                env[st.target.id] = [Iv(x.lo + k, x.lc, x.hi + k, x.hc, x.shift + k, x.sg)
+                                     for x in env[st.target.id]]
+                return [(env, desc)]
+            if isinstance(st.target, ast.Subscript) and isinstance(st.target.value, ast.Name) and \
+                    k is not None:
+                sp = self.split(st.target.slice, env)
+                if sp is not None and sp[0] == st.target.value.id:
+                    k = k if isinstance(st.op, ast.Add) else -k
+                    name, sat, uns = sp
+                    env = dict(env)
+                    env[name] = [Iv(x.lo + k, x.lc, x.hi + k, x.hc, x.shift + k, x.sg)
+                                 for x in sat] + uns
+                    return [(env, desc)]
+            if (isinstance(st.target, ast.Name) and env.get(st.target.id) is not None) or \
+                    (isinstance(st.target, ast.Subscript) and
+                     isinstance(st.target.value, ast.Name) and
+                     env.get(st.target.value.id) is not None):
+                raise AnalysisError('update `%s` not understood' % norm_text(st))
+            return [(env, desc)]
+        if isinstance(st, ast.If):
+            sp = self.split(st.test, env)
+            if sp is not None:
+                name, sat, uns = sp
+                out = []
+                if sat:
+                    out += self.run(st.body, dict(env, **{name: sat}), desc)
+                if uns:
+                    out += self.run(st.orelse, dict(env, **{name: uns}), desc)
+                # merge continuing paths of the two value branches piecewise
+                if len(out) >= 2 and all(o[1] == desc for o in out):
+                    merged = dict(out[0][0])
+                    for k_ in set().union(*[set(o[0]) for o in out]):
+                        vals = [o[0].get(k_) for o in out]
+                        if all(isinstance(v_, list) for v_ in vals):
+                            merged[k_] = [p_ for v_ in vals for p_ in v_] if k_ == name \
+                                else vals[0]
+                    return [(merged, desc)]
+                return out
+            t = norm_text(st.test)
+            a = self.run(st.body, env, (desc + ', ' if desc else '') + '`%s`' % t[:40])
+            b = self.run(st.orelse, env, (desc + ', ' if desc else '') + 'not `%s`' % t[:40])
+            return a + b
+        # anything else must not touch angle values
+        for n in ast.walk(st):
+            if isinstance(n, ast.Name) and isinstance(n.ctx, ast.Store) and \
+                    env.get(n.id) is not None:
+                raise AnalysisError('statement `%s` not understood' % norm_text(st)[:60])
+        return [(env, desc)]
+
+
+def wrap_rules(ctx):
+    ctx.rule('WRAP-RANGE', 'to_180_range maps every real angle into (-180, 180] on every path '
+             '(interval analysis with open/closed ends)')
+    ctx.rule('WRAP-CONG', 'every adjustment in to_180_range is a multiple of the modulus 360: the '
+             'result is congruent to the input')
+    f = ctx.repo.function('util.to_180_range')
+    ctx.need(f.params, 'to_180_range has no parameter')
+    W = _Wrap(ctx, f)
+    env = {f.params[0]: [Iv(-INF, False, INF, False, 0)]}
+    rest = W.run(f.node.body, env, '')
+    ctx.need(not rest, 'to_180_range: a path ends without return')
+    ctx.need(W.paths, 'to_180_range: no returning path')
+    ctx.need(W.mods, 'to_180_range: modulo reduction not found')
+    for M, node in W.mods[:1]:
+        ctx.ob('WRAP-CONG', all(m == 360 for m, _ in W.mods), None, 'reduction modulo 360', f=f,
+               node=node, key='modulus',
+               why='angle is reduced modulo %r, not 360: the result is not congruent to the input'
+                   % ([m for m, _ in W.mods],))
+    M = 360
+    seen = set()
+    for k, (desc, cur, node) in enumerate(W.paths):
+        sig = repr(sorted((iv.lo, iv.lc, iv.hi, iv.hc, iv.shift) for iv in cur))
+        name = 'path %d' % (k + 1)
+        bounded = all(iv.lo > -INF and iv.hi < INF for iv in cur)
+        ok = bounded and all((iv.lo > -180 or (iv.lo == -180 and not iv.lc)) and
+                             (iv.hi < 180 or (iv.hi == 180)) for iv in cur)
+        ctx.ob('WRAP-RANGE', ok, None, '%s (%s): result set %s is inside (-180, 180]'
+               % (name, desc, cur), f=f, node=node, key='range-' + name,
+               why='to_180_range can return values outside (-180, 180] on the path [%s]: '
+                   'reachable set %s' % (desc, cur))
+        okc = all(iv.shift % M == 0 and iv.sg == 1 for iv in cur)
+        ctx.ob('WRAP-CONG', okc, None, '%s: accumulated adjustments are multiples of %s' % (name, M),
+               f=f, node=node, key='cong-' + name,
+               why='to_180_range shifts by %s on the path [%s], not a multiple of %s'
+                   % (sorted({iv.shift for iv in cur}), desc, M))
+        tot = sum(iv.hi - iv.lo for iv in cur) if bounded else INF
         ctx.ob('WRAP-RANGE', tot == M, None, '%s: image has total length %s' % (name, M), f=f,
                node=node, key='measure-' + name,
-               why='%s: image of [0, %s) has length %s' % (name, M, tot))
-    ctx.floor('WRAP-RANGE', len(arms), 2, 'arms (array and scalar)')
+               why='image of the reduction has length %s on the path [%s]' % (tot, desc))
+        seen.add(sig)
+    ctx.floor('WRAP-RANGE', len(W.paths), 1, 'returning paths')
 
 
 # ----------------------------------------------------------------------- RES-*
